@@ -154,6 +154,45 @@ fn prefix_consistent_frame(cx: &Cx) -> Frame<'static> {
     Frame::new(Address(addr.0), MsgType(ty), crate::gens::data(data))
 }
 
+/// A short valid frame of L data bytes in which, for some k < L whose two hex digits differ from
+/// L's in exactly ONE digit, data byte k equals the checksum of everything before it. One
+/// substituted character in the length field then declares k bytes, and the k bytes that follow
+/// the header check out against data byte k: only the count of what is really on the line can
+/// reject it. Full 16-byte chunks (L = 17 -> 16) are the dominant shape and weighted accordingly.
+fn length_neighbour_frame(cx: &Cx) -> Frame<'static> {
+    use flipdot_core::{Address, MsgType};
+    let len = match cx.draw(8) {
+        0..=2 => 17usize,
+        3 => 33,
+        4 => 18,
+        _ => 2 + cx.draw(39) as usize,
+    };
+    let mut data = cx.bytes(len);
+    let addr = crate::gens::address(cx);
+    let ty = cx.draw(256) as u8;
+    let mut ks: Vec<usize> = Vec::new();
+    for d in 0..16usize {
+        for k in [(len & 0xF0) | d, (len & 0x0F) | (d << 4)] {
+            if k < len {
+                ks.push(k);
+            }
+        }
+    }
+    ks.sort();
+    ks.dedup();
+    // one neighbour mostly (16 for 17), sometimes all of them
+    let chosen: Vec<usize> = if cx.chance(1, 4) { ks.clone() } else { vec![ks[ks.len() - 1 - cx.draw(ks.len().min(2) as u64) as usize]] };
+    for k in chosen {
+        let len_byte = if cx.chance(1, 2) { k as u8 } else { len as u8 };
+        let mut sum: u8 = len_byte.wrapping_add((addr.0 >> 8) as u8).wrapping_add(addr.0 as u8).wrapping_add(ty);
+        for b in &data[..k] {
+            sum = sum.wrapping_add(*b);
+        }
+        data[k] = 0u8.wrapping_sub(sum);
+    }
+    Frame::new(Address(addr.0), MsgType(ty), crate::gens::data(data))
+}
+
 /// Independent look at an accepted line: Some(reason) if its declared length disagrees with its
 /// data or its bytes do not sum to zero. Lines of another shape are not judged here.
 fn inconsistent(line: &[u8]) -> Option<&'static str> {
@@ -196,12 +235,17 @@ impl Scenario for C02 {
     }
     fn run(&self, cx: &Cx) -> Result<(), Violation> {
         // Mostly short frames (cheap, complete stream path); some of maximal length.
+        let mut both_forms = false;
         let f = if cx.chance(1, 6) {
             cx.probe("frame_embedding_another_frame");
             nested_frame(cx)
         } else if cx.chance(1, 8) {
             cx.probe("frame_with_checksum_consistent_prefix");
             prefix_consistent_frame(cx)
+        } else if cx.chance(1, 6) {
+            cx.probe("frame_with_consistent_length_neighbour");
+            both_forms = true;
+            length_neighbour_frame(cx)
         } else if cx.chance(1, 24) {
             let len = *cx.pick(&[255usize, 254, 128]);
             flipdot_core::Frame::new(crate::gens::address(cx), flipdot_core::MsgType(cx.draw(256) as u8), crate::gens::data(cx.bytes(len)))
@@ -214,7 +258,11 @@ impl Scenario for C02 {
             }
             f
         };
-        let with_newline = cx.chance(3, 4);
+        // the terminator is optional: three lines in four carry it (half of the crafted short ones)
+        let with_newline = if f.data().len() <= 40 && cx.chance(1, 3) { cx.chance(1, 2) } else { cx.chance(3, 4) };
+        // the short crafted frames are judged in both forms, one after the other
+        let forms: Vec<bool> = if both_forms { vec![with_newline, !with_newline] } else { vec![with_newline] };
+        for with_newline in forms {
         let line: Vec<u8> = if with_newline {
             // through the real writer
             let mut s = SimStream::new(cx, vec![]);
@@ -347,6 +395,7 @@ impl Scenario for C02 {
                 cx.fail("C02/bad-checksum-accepted", format!("checksum off by {delta} accepted: {:?}", String::from_utf8_lossy(&line[..line.len().min(60)])));
                 return cx.verdict();
             }
+        }
         }
         cx.verdict()
     }
